@@ -1,9 +1,42 @@
 import RV.Json
 import RV.Drv.Echo
 import RV.Drv.Arith
+import RV.Drv.Gateway
+import RV.Drv.LabelPatch
+import RV.Drv.Conversion
+import RV.Drv.Ingress
+import RV.Drv.Custom
+import RV.Drv.Webhook
+import RV.Drv.Validate
+import RV.Drv.DepSync
+import RV.Drv.LuaJson
+import RV.Drv.BatchCtx
+import RV.Drv.Executor
+import RV.Drv.RolloutSM
+import RV.Drv.Traffic
+import RV.Drv.TRSM
+import RV.Drv.Tables
+import RV.Drv.Cluster
 namespace RV.Drv
+/-- suite name ↦ handler.  One file per suite so that suites can be developed independently. -/
 def lookup : String → Option Handler
   | "echo" => some Echo.handle
   | "arith" => some Arith.handle
+  | "gateway" => some Gateway.handle
+  | "labelpatch" => some LabelPatch.handle
+  | "conversion" => some Conversion.handle
+  | "ingress" => some Ingress.handle
+  | "custom" => some Custom.handle
+  | "webhook" => some Webhook.handle
+  | "validate" => some Validate.handle
+  | "depsync" => some DepSync.handle
+  | "luajson" => some LuaJson.handle
+  | "batchctx" => some BatchCtx.handle
+  | "executor" => some Executor.handle
+  | "rolloutsm" => some RolloutSM.handle
+  | "traffic" => some Traffic.handle
+  | "trsm" => some TRSM.handle
+  | "tables" => some Tables.handle
+  | "cluster" => some Cluster.handle
   | _ => none
 end RV.Drv
